@@ -28,6 +28,7 @@ Variants(k) == IF Thorough THEN 0..(VariantCount(k) - 1) ELSE {SeedN % VariantCo
 
 \* option flags per sub-command: listings get every output-format option
 Opts(f, c) == IF <<f, c>> = <<"mpq", "list">> THEN 0..3          \* plain, --long, --filter, --long --filter
+              ELSE IF <<f, c>> = <<"mpq", "rebuild">> THEN 0..3   \* default, --verify, --skip-encrypted, both (source holds every file class)
               ELSE IF <<f, c>> = <<"wdt", "tiles">> THEN 0..2     \* text, csv, json
               ELSE 0..1
 \* kinds with a file that violates only the rule a validate flag switches on (blp --strict, wdl --version)
@@ -35,25 +36,32 @@ HasFlagViol(k) == k \in {"blp", "wdl"}
 \* pre-states of the output location: every producer on valid input meets all of them
 Pres(f, c, inp) == IF Producer(f, c) /\ inp = "valid" THEN PreStates ELSE {"empty"}
 
+\* GLOBAL options (warcraft-rs --help: -q/--quiet, -v repeated) are a dimension of every obligation: every sub-command meets each
+\* of them on one succeeding (valid) and one failing (nonexistent) run
+Globs == {"", "-q", "-v", "-vv"}
+GlobsFor(inp, o, pr) == IF inp \in {"valid", "nonexistent"} /\ o = 0 /\ pr = "empty" THEN Globs ELSE {""}
 VariantsFor(k, inp) == IF inp = "flagviol" THEN 0..2 ELSE Variants(k)     \* all flag-violating shapes (one dimension, the other, both) in every tier
 InputsFor(c, k) == {inp \in Inputs : /\ (inp = "flagviol" => (HasFlagViol(k) /\ c = "validate"))
                                      /\ (inp = "flagged" => HasFlagged(k))}
 FmtCases == UNION {UNION {UNION {
-               {[mode |-> "fmt", fam |-> fc[1], cmd |-> fc[2], kind |-> k, input |-> inp, variant |-> v, opt |-> o, pre |-> pr]
-                  : v \in VariantsFor(k, inp), o \in Opts(fc[1], fc[2]), pr \in Pres(fc[1], fc[2], inp)}
+               UNION {UNION {
+               {[mode |-> "fmt", fam |-> fc[1], cmd |-> fc[2], kind |-> k, input |-> inp, variant |-> v, opt |-> o, pre |-> pr, glob |-> gl]
+                  : v \in VariantsFor(k, inp), gl \in GlobsFor(inp, o, pr)}
+                  : pr \in Pres(fc[1], fc[2], inp)} : o \in Opts(fc[1], fc[2])}
                : inp \in InputsFor(fc[2], k)} : k \in KindsOf(fc[1], fc[2])} : fc \in {x \in AllCmds : x[1] # "mpq"}}
 
-Mpq1All == {[mode |-> "mpq1", fam |-> "mpq", cmd |-> c, kind |-> "mpq", input |-> inp, variant |-> v, opt |-> o, pre |-> pr]
-            : c \in Cmds("mpq"), inp \in Inputs \ {"flagviol"}, v \in (IF Thorough THEN 0..3 ELSE {SeedN % 4}), o \in 0..3, pr \in PreStates}
+Mpq1All == {[mode |-> "mpq1", fam |-> "mpq", cmd |-> c, kind |-> "mpq", input |-> inp, variant |-> v, opt |-> o, pre |-> pr, glob |-> gl]
+            : c \in Cmds("mpq"), inp \in Inputs \ {"flagviol"}, v \in (IF Thorough THEN 0..3 ELSE {SeedN % 4}), o \in 0..3, pr \in PreStates, gl \in Globs}
 Mpq1Cases == {x \in Mpq1All : /\ x.opt \in Opts("mpq", x.cmd) /\ x.pre \in Pres("mpq", x.cmd, x.input)
+                              /\ x.glob \in GlobsFor(x.input, x.opt, x.pre)
                               /\ (x.cmd = "create" => x.input \in {"valid", "nonexistent"})}
 
 FileSets == {"one", "few", "many"}
 Versions == {"v1", "v2", "v3", "v4"}
 Compressions == {"none", "zlib", "bzip2", "lzma"}
 Pipe == {[mode |-> "pipe", fam |-> "mpq", cmd |-> "pipeline", files |-> fs, version |-> ver, compression |-> co, listfile |-> lf,
-          threads |-> th, preserve |-> pr, explicit |-> ex, skip |-> sk, chain |-> ch, pre |-> pe]
-         : pe \in PreStates, fs \in FileSets, ver \in Versions, co \in Compressions, lf \in BOOLEAN, th \in {0, 1, 4}, pr \in BOOLEAN,
+          threads |-> th, preserve |-> pr, explicit |-> ex, skip |-> sk, chain |-> ch, pre |-> pe, glob |-> gl]
+         : gl \in {"", "-q"}, pe \in PreStates, fs \in FileSets, ver \in Versions, co \in Compressions, lf \in BOOLEAN, th \in {0, 1, 4}, pr \in BOOLEAN,
            ex \in {"all", "some", "missing"}, sk \in BOOLEAN, ch \in BOOLEAN}
 \* quick: a residue class of a weighted sum of the option codes (every value of every dimension occurs, rotating with the seed)
 B(b) == IF b THEN 1 ELSE 0
@@ -62,15 +70,22 @@ FC(x) == CASE x = "empty" -> 0 [] x = "shorter" -> 1 [] x = "longer" -> 2 [] x =
            [] x = "v1" -> 0 [] x = "v2" -> 1 [] x = "v3" -> 2 [] x = "v4" -> 3
            [] x = "none" -> 0 [] x = "zlib" -> 1 [] x = "bzip2" -> 2 [] x = "lzma" -> 3
            [] x = "all" -> 0 [] x = "some" -> 1 [] x = "missing" -> 2
-PipeMod == IF Thorough THEN 4 ELSE 128
-PipeHash(x) == (FC(x.files) + 3 * FC(x.version) + 5 * FC(x.compression) + 7 * B(x.listfile) + 11 * x.threads + 13 * B(x.preserve)
-                + 17 * FC(x.explicit) + 19 * B(x.skip) + 23 * B(x.chain) + 29 * FC(x.pre)) % PipeMod
-PipeCases == {x \in Pipe : PipeHash(x) = SeedN % PipeMod}
+PipeMod == IF Thorough THEN 8 ELSE 256
+\* sample by a multiplicative hash of the position in the enumerated product (uniform over every dimension)
+PipeSeq == SetToSeq(Pipe)
+PipeCases == {PipeSeq[i] : i \in {j \in 1..Len(PipeSeq) : ((j * 7919) % 10007) % PipeMod = SeedN % PipeMod}}
 
-All == SetToSeq(FmtCases) \o SetToSeq(Mpq1Cases) \o SetToSeq(PipeCases)
+\* scale classes of the bulk commands: file counts around the window / batch constants found in the CLI and the library
+\* (10, 25 per batch; 1000 and 5000 switch the batching strategy): archives of 1-3 byte files
+Counts == IF Thorough THEN {9, 11, 26, 999, 1000, 1001, 2001, 4999, 5000, 5001, 10001} ELSE {11, 26, 999, 1000, 1001, 2001}
+ScaleCases == {[mode |-> "scale", fam |-> "mpq", cmd |-> c, kind |-> "mpq", input |-> "valid", count |-> n, opt |-> o, glob |-> ""]
+               : c \in {"extract", "list", "validate", "rebuild"}, n \in Counts, o \in 0..1}
+              \ {x \in [mode : {"scale"}, fam : {"mpq"}, cmd : {"list", "validate", "rebuild"}, kind : {"mpq"}, input : {"valid"}, count : Counts, opt : {1}, glob : {""}] : TRUE}
+
+All == SetToSeq(FmtCases) \o SetToSeq(Mpq1Cases) \o SetToSeq(PipeCases) \o SetToSeq(ScaleCases)
 Numbered == [i \in 1..Len(All) |-> [id |-> i] @@ All[i]]
 ASSUME ndJsonSerialize(IOEnv.CASES, Numbered)
-ASSUME PrintT(<<"GENERATED", Len(Numbered), "cases:", Cardinality(FmtCases), "fmt", Cardinality(Mpq1Cases), "mpq1", Cardinality(PipeCases), "pipe">>)
+ASSUME PrintT(<<"GENERATED", Len(Numbered), "cases:", Cardinality(FmtCases), "fmt", Cardinality(Mpq1Cases), "mpq1", Cardinality(PipeCases), "pipe", Cardinality(ScaleCases), "scale">>)
 \* every generated run has exactly one obligation
 ASSUME \A x \in FmtCases \cup Mpq1Cases : \A lib \in {"ok", "err"} :
           Obligation([Run0(x.fam, x.cmd, x.input) EXCEPT !.lib = lib]) \in Obligations
